@@ -117,8 +117,17 @@ def observe (cfg : Upd.Cfg) (bs : Bytes) : String :=
   let r := observeFull cfg bs
   if embeddedTypeWrong bs && r != "panic" && !containsSub r "=panic" && !r.endsWith " panic" then "unspec" else r
 
+def showFramed : FrameCheck → String
+  | .complete l => s!"ok:{l}"
+  | .incomplete => "incomplete"
+  | .illegalSize => "illegal"
+
 def handle (ws : List String) : String :=
   match ws with
+  | ["bmpchk", h] =>
+    match bytesOfHex h with
+    | some bs => showO showFramed (msgCheck bs)
+    | none => "bad-op"
   | ["bmp", h] | ["bmpwf", h] =>
     match bytesOfHex h with
     | some bs => observe ⟨true, []⟩ bs
